@@ -830,6 +830,61 @@ def life_stage(chk: Check, tier: str, stats: dict, only: list | None = None) -> 
     return res["rejects"]
 
 
+PAUSED_GOOD = [" I --- 01:145038 --:------ 01:145038 1F09 003 FF073F", " I --- 04:189078 --:------ 01:145038 30C9 003 0007D0",
+               " I --- 01:145038 --:------ 01:145038 30C9 009 0007D00107D00207D0", "RP --- 01:145038 18:111111 --:------ 0006 004 00050008",
+               " I 012 --:------ --:------ 12:126457 2309 003 0107D0", " I --- 13:049798 --:------ 13:049798 3EF0 003 00C8FF"]
+PAUSED_BAD = [" I --- 01:145038 --:------ 01:145038 1F09 004 FF073F", " I --- 01:145038 01:145038 --:------ 30C9 003 0007D0", "# chatter"]
+
+
+def paused_stage(chk: Check, tier: str, stats: dict, rng: random.Random, only: list | None = None) -> list:
+    """Frames arriving while the real Engine._pause() has parked the protocol (snapshot / restore in progress): nothing
+    may escape, and what arrives after Engine._resume() is delivered again (spec/RxPaused.tla judges)."""
+    G, B = PAUSED_GOOD, PAUSED_BAD
+    L = lambda f, good=1: ["line", f, good]     # noqa: E731
+    scheds = [
+        [L(G[0]), ["pause"], L(G[1]), L(B[0], 0), L(G[2]), ["resume"], L(G[3]), L(G[4])],
+        [["pause"], L(G[0]), ["resume"], L(G[1])],
+        [L(G[5]), ["pause"], ["resume"], L(G[0])],
+        [["pause"], L(G[3]), L(G[4]), ["resume"], L(B[1], 0), L(G[2]), ["pause"], L(G[0]), L(B[2], 0), ["resume"], L(G[1])],
+    ]
+    for _ in range(40 if tier != "quick" else 6):
+        s, paused = [], False
+        for _j in range(rng.randint(4, 14)):
+            r = rng.random()
+            if r < 0.25:
+                s.append(["resume"] if paused else ["pause"])
+                paused = not paused
+            elif r < 0.4:
+                s.append(L(rng.choice(B), 0))
+            else:
+                s.append(L(rng.choice(G)))
+        if paused:
+            s.append(["resume"])
+        s.append(L(rng.choice(G)))
+        scheds.append(s)
+    if only is not None:
+        scheds = only
+
+    async def go() -> list[dict]:
+        return [await rx.run_paused(s) for s in scheds]
+
+    items, _loop = vloop.run(go)
+    res = tlc.validate_batch("RxPaused", items, cfg="RxPaused.cfg", workers=2, timeout=600)
+    stats["paused_engine"] = {"schedules": len(items), "events": sum(len(i["ev"]) for i in items),
+                              "lines_while_paused": sum(1 for s in scheds for j, st in enumerate(s) if st[0] == "line"
+                                                        and sum(1 for x in s[:j] if x[0] == "pause") > sum(1 for x in s[:j] if x[0] == "resume")),
+                              "rejected": len(res["rejects"])}
+    seen = set()
+    for idx, fail in res["rejects"]:
+        cls = fail[1]
+        if cls in seen:
+            continue
+        seen.add(cls)
+        chk.violation(cls, f"{cls} at event {fail[0]} of the paused-engine schedule {scheds[idx]}: {items[idx]['ev'][max(0, fail[0] - 3):fail[0]]}",
+                      {"stage": "paused", "steps": scheds[idx]})
+    return res["rejects"]
+
+
 def main(tier: str, replay: str | None) -> None:
     fakes.quiet_logging()
     if replay:
@@ -898,6 +953,7 @@ def main(tier: str, replay: str | None) -> None:
         # ---- B2: the transport's connection phase (spec/TransportLife.tla) ---------------------
         t0 = time.time()
         life_stage(chk, tier, stats)
+        paused_stage(chk, tier, stats, rng)
         stats["t_life"] = round(time.time() - t0, 1)
 
         # ---- C: packet log / packet dict replays; D: MQTT ----------------------------------
@@ -1014,6 +1070,11 @@ def do_replay(path: str) -> None:
             rej = life_stage(chk, "quick", {}, only=[(rp["steps"], bool(rp["sending"]))])
             print("TLC verdict:", rej or "accepted")
             raise SystemExit(1 if any(c.startswith("b:") for _i, f in rej for _l, c in f) else 0)
+        if rp["stage"] == "paused":
+            chk = Check(PID, "quick", "model_checking")
+            rej = paused_stage(chk, "quick", {}, random.Random(0), only=[rp["steps"]])
+            print("TLC verdict:", rej or "accepted")
+            raise SystemExit(1 if rej else 0)
         if rp["stage"] == "line":
             recs = line_items(rp["lines"], 1)
             for r in recs:
